@@ -258,6 +258,23 @@ def _check_manager(case: dict[str, Any], rec: Any) -> None:
     failed_first = {b for c in first["calls"] for b in first["inv_bats"][c["id"]]}
     if any(set(st["uncertain"]) & failed_first for st in out["pool_status"]):
         rec.bucket("manager-tier:failed-batteries-reported-uncertain")
+    # every API call of the first request raised: each battery behind a commanded inverter that was reported working
+    # before must be reported uncertain by the time the request is answered (and before the next request, 0.4 s later)
+    t1 = first.get("t_done")
+    if t1 is not None and failed_first:
+        before = [st for st in out["pool_status"] if st["t"] < t1 - 1e-9 and not (set(st["uncertain"]) & failed_first)]
+        was_working = set(before[-1]["working"]) & failed_first if before else set()
+        t2 = second.get("t_done", float("inf"))
+        seen = set()
+        for st in out["pool_status"]:
+            if st["t"] <= t2 - 0.2:
+                seen |= set(st["uncertain"])
+        rec.count("manager-tier:failed-commands-judged", len(was_working))
+        if was_working - seen:
+            rec.violation("failed-command-not-reported-uncertain",
+                          {"via": "BatteryManager.distribute_power", "failed_calls": [c["id"] for c in first["calls"]],
+                           "batteries_behind_them": sorted(failed_first), "never_uncertain": sorted(was_working - seen),
+                           "pool_status_history": out["pool_status"][:8], "first_result": repr(first["result"])[:300]})
     res2 = second["result"]
     rec.count("status_reports_checked", len(out["pool_status"]))
     if isinstance(res2, Success) and second["calls"]:
